@@ -347,10 +347,11 @@ def run(F, R, tier):
                         fo = B.origins(B.blocks[o[2]]["term"]["args"][0])
                         fields += [x[2][0] for x in fo if x[0] == "param" and x[2]]
         ro = B.origins({"k": "copy", "p": {"l": 0, "p": []}})
-        R.check(bool(ro) and all(o[0] == "call" and q.ends(o[1], "fmt::format") for o in ro), "C11.R4", "C11.R4:%s:key-is-whole-format" % ks["id"],
+        lossy = q.lossy_via(B, {"k": "copy", "p": {"l": 0, "p": []}})
+        R.check(bool(ro) and all(o[0] == "call" and q.ends(o[1], "fmt::format") for o in ro) and not lossy, "C11.R4", "C11.R4:%s:key-is-whole-format" % ks["id"],
                 "%s:%s" % (ks["file"], ks["line"]), "the key returned is the formatted string itself (not shortened, hashed or otherwise folded)",
                 "the key returned is derived from the formatted string through %s: distinct callers can share one key and be counted under "
-                "another caller's identity" % sorted({q.base_name(o[1]) if o[0] == "call" else str(o[0]) for o in ro}))
+                "another caller's identity" % (sorted({q.base_name(o[1]) if o[0] == "call" else str(o[0]) for o in ro}) + lossy))
         need = {"userName", "clientIp", "ip", "port", "processFullPath", "processCmdLine", "responseStatus"}
         R.check(set(fields) >= need, "C11.R4", "C11.R4:%s:key-fields" % ks["id"], "%s:%s" % (ks["file"], ks["line"]),
                 "summary key covers user, client ip, destination ip/port, process path, command line, status: %s" % fields,
